@@ -897,6 +897,464 @@ def shrink_first_violation(ctx):
 
 
 # ------------------------------------------------------------------------------------------------------------
+# SCALE families (round 9): every size dimension of a key / a map / a history pushed through a ladder far beyond any
+# plausible hidden threshold, one dimension at a time.  The oracle is an ABSTRACT MAP IN PYTHON (a dict over canonical
+# keys: Python's == on floats / strs / tuples of those is the language's == on the keys used here: no booleans, no NaN)
+# run on the same loop the yarel program runs, so no model evaluation of a huge program is needed; the answers are
+# closed-form in the size (len = n, hits = n, misses = 0, sum = n(n-1)/2 ...) and the same at every rung.
+# A case = {"name", "family", "size", "src", "expected": {marker: [lines]}, "profile"}; the program prints "#<marker>"
+# before every observation, the lines of one marker are compared as a multiset (enumeration order is free).
+
+DEPTHS = (1, 2, 3, 17, 31, 32, 33, 34, 65, 129, 300)
+WIDTHS = (1, 2, 3, 17, 33, 64, 65, 128, 129, 200, 254, 255)
+ENTRY_SIZES = (1, 2, 3, 4, 7, 8, 14, 15, 28, 29, 56, 57, 112, 113, 224, 225, 448, 449, 896, 897, 1100, 1792, 1793, 3584, 3585, 5000)
+HISTORY_SIZES = (17, 33, 129, 300, 1100, 5000, 20000)
+STRLENS = (1, 2, 17, 31, 32, 33, 64, 65, 129, 300, 1100, 5000)
+TREE_DEPTHS = (1, 2, 5, 8, 10, 12)
+DEBUG_MAX = {"literals": 129, "fat": 34, "depth": 65, "prefix": 34, "width": 255, "entries": 57, "history": 129, "strlen": 129, "tree": 5}
+
+
+class VecKey:
+    """an unhashable leaf ([1]) inside an otherwise hashable key"""
+    def __init__(self, disp):
+        self.disp = disp
+
+
+def py_disp(k):
+    if k is None:
+        return "nil"
+    if isinstance(k, VecKey):
+        return k.disp
+    if isinstance(k, str):
+        return k
+    if isinstance(k, tuple):
+        ds = [py_disp(e) for e in k]
+        return "(%s,)" % ds[0] if len(ds) == 1 else "(%s)" % ", ".join(ds)
+    return num_display(bits_of(float(k)))
+
+
+def py_hashable(k):
+    if isinstance(k, VecKey):
+        return False
+    if isinstance(k, tuple):
+        return all(py_hashable(e) for e in k)
+    return True
+
+
+class ScaleProg:
+    """builds the yarel text and the expected output side by side; `m` is the abstract map"""
+
+    def __init__(self, name, family, size):
+        self.name, self.family, self.size = name, family, size
+        self.lines = ["var m = {};"]
+        self.exp = {}
+        self.n = 0
+        self.m = {}
+
+    def raw(self, text):
+        self.lines.append(text)
+
+    def obs(self, text, expected):
+        """`text` prints the observation; expected = list of lines (multiset)"""
+        self.n += 1
+        self.lines.append('print("#%d");' % self.n)
+        self.lines.append(text)
+        self.exp[str(self.n)] = sorted(expected)
+
+    # the natives on a key held by a variable `var` whose abstract value is `k`
+    def insert(self, var, k, vsrc, v):
+        if not py_hashable(k):
+            return self.rejected("m.insert(%s, %s)" % (var, vsrc), k)
+        old = self.m.get(k)
+        self.m[k] = v
+        self.obs("print(m.insert(%s, %s));" % (var, vsrc), [py_disp(old)])
+
+    def get(self, var, k):
+        if not py_hashable(k):
+            return self.rejected("m.get(%s)" % var, k)
+        self.obs("print(m.get(%s));" % var, [py_disp(self.m.get(k))])
+
+    def has(self, var, k):
+        if not py_hashable(k):
+            return self.rejected("m.has_key(%s)" % var, k)
+        self.obs("print(m.has_key(%s));" % var, ["true" if k in self.m else "false"])
+
+    def remove(self, var, k):
+        if not py_hashable(k):
+            return self.rejected("m.remove(%s)" % var, k)
+        self.obs("print(m.remove(%s));" % var, [py_disp(self.m.pop(k, None))])
+
+    def rejected(self, call, k):
+        self.obs('try { print(%s); } catch e { print("E"); print(e.context); }' % call, ["E", ERR_PREFIX + py_disp(k) + ERR_SUFFIX])
+
+    def literal(self, pairs):
+        """m = {var: v, ...}"""
+        body = ", ".join("%s: %s" % (var, vsrc) for var, _, vsrc, _ in pairs)
+        bad = next((k for _, k, _, _ in pairs if not py_hashable(k)), None)
+        if bad is not None:
+            return self.rejected("{%s}" % body, bad)
+        self.m = {}
+        for _, k, _, v in pairs:
+            self.m[k] = v
+        self.obs('m = {%s}; print("ok");' % body, ["ok"])
+
+    def length(self):
+        self.obs("print(m.len());", [str(len(self.m))])
+
+    def contents(self):
+        self.obs("for it in m.items() { print(it); }", [py_disp((k, v)) for k, v in self.m.items()])
+        self.obs("for k in m.keys() { print(k); }", [py_disp(k) for k in self.m])
+        self.obs("for v in m.values() { print(v); }", [py_disp(v) for v in self.m.values()])
+
+    def case(self, profile):
+        return {"kind": "scale", "name": self.name, "family": self.family, "size": self.size, "profile": profile,
+                "src": "\n".join(self.lines + ['print("#end");']), "expected": self.exp}
+
+
+def key_session(sp, p, q, others, unh):
+    """the same session for every key shape: p and q are == but built separately, `others` are near misses that
+    must stay different entries, `unh` is the same shape holding a vector"""
+    (pv, pk), (qv, qk) = p, q
+    sp.insert(pv, pk, "1", 1)
+    sp.has(qv, qk)
+    sp.get(qv, qk)
+    for ov, ok in others:
+        sp.has(ov, ok)
+        sp.get(ov, ok)
+    for j, (ov, ok) in enumerate(others):
+        sp.insert(ov, ok, str(10 + j), 10 + j)
+    sp.length()
+    sp.insert(qv, qk, "3", 3)
+    sp.get(pv, pk)
+    sp.obs("print(%s == %s);" % (pv, qv), ["true"])
+    for ov, ok in others:
+        sp.obs("print(%s == %s);" % (pv, ov), ["false"])
+    if unh is not None:
+        uv, uk = unh
+        sp.insert(uv, uk, "99", 99)
+        sp.get(uv, uk)
+        sp.has(uv, uk)
+        sp.remove(uv, uk)
+        sp.literal([(pv, pk, "5", 5), (uv, uk, "6", 6)])
+        sp.length()
+    sp.contents()
+    sp.remove(qv, qk)
+    sp.length()
+    sp.has(pv, pk)
+    for ov, ok in others[:1]:
+        sp.get(ov, ok)
+    sp.literal([(pv, pk, "1", 1), (qv, qk, "2", 2)] + [(ov, ok, "3", 3) for ov, ok in others])
+    sp.length()
+    sp.get(pv, pk)
+    sp.contents()
+
+
+def nest(d, leaf, f=lambda i: i):
+    k = leaf
+    for i in range(d):
+        k = (f(i), k)
+    return k
+
+
+def scale_depth(d):
+    """a cons-list path (node, rest) with d links"""
+    sp = ScaleProg("depth%d" % d, "depth", d)
+    sp.raw("var p = nil; for i in 0..%d { p = (i, p); }" % d)
+    sp.raw("var q = nil; for i in 0..%d { q = (i + 1 - 1.0, q); }" % d)
+    sp.raw("var o1 = 7; for i in 0..%d { o1 = (i, o1); }" % d)                      # differs at the innermost position only
+    sp.raw("var o2 = nil; for i in 0..%d { o2 = (i, o2); }" % (d - 1))              # one link shorter
+    sp.raw("var o3 = nil; for i in 0..%d { o3 = (i, o3); }" % (d + 1))              # one link longer
+    sp.raw("var u = [1]; for i in 0..%d { u = (i, u); }" % d)
+    key_session(sp, ("p", nest(d, None)), ("q", nest(d, None)),
+                [("o1", nest(d, 7)), ("o2", nest(d - 1, None)), ("o3", nest(d + 1, None))], ("u", nest(d, VecKey("[1]"))))
+    return sp
+
+
+def scale_fat(d):
+    """a d-link path whose links are 5 elements wide with a small tuple inside: 6 d elements in all"""
+    sp = ScaleProg("fat%d" % d, "fat", d)
+
+    def fat(leaf, d=d):
+        k = leaf
+        for i in range(d):
+            k = (i, i + 1, "n", (i,), k)
+        return k
+    sp.raw('var p = nil; for i in 0..%d { p = (i, i + 1, "n", (i,), p); }' % d)
+    sp.raw('var q = nil; for i in 0..%d { q = (i * 1, 1 + i, "" + "n", (i + 0,), q); }' % d)
+    sp.raw('var o1 = (nil,); for i in 0..%d { o1 = (i, i + 1, "n", (i,), o1); }' % d)
+    sp.raw('var o2 = nil; for i in 0..%d { o2 = (i, i + 1, "n", (i,), o2); }' % (d + 1))
+    sp.raw('var u = {}; for i in 0..%d { u = (i, i + 1, "n", (i,), u); }' % d)
+    key_session(sp, ("p", fat(None)), ("q", fat(None)), [("o1", fat((None,))), ("o2", fat(None, d + 1))], ("u", fat(VecKey("{}"))))
+    return sp
+
+
+def scale_prefix(d):
+    """every prefix of a d-link path is a key of the same map (paths sharing structure)"""
+    sp = ScaleProg("prefix%d" % d, "prefix", d)
+    sp.raw("var path = nil; var olds = 0;")
+    sp.obs("for node in 0..%d { path = (node, path); if m.insert(path, node) != nil { olds = olds + 1; } }\nprint(olds);" % d, ["0"])
+    for i in range(d):
+        sp.m[nest(i + 1, None)] = i
+    sp.length()
+    sp.obs("var again = nil; var hits = 0; var sum = 0;\nfor node in 0..%d { again = (node, again); if m.has_key(again) { hits = hits + 1; sum = sum + m.get(again); } }\n"
+           "print(hits); print(sum);" % d, [str(d), str(d * (d - 1) // 2)])
+    sp.obs("print(again == path); print(m.get(again));", ["true", str(d - 1)])
+    sp.obs("var cnt = 0; for it in m.items() { if m.get(it[0]) == it[1] { cnt = cnt + 1; } } print(cnt);", [str(d)])
+    sp.obs("var gone = 0; again = nil; for node in 0..%d { again = (node, again); if node %% 2 == 0 { gone = gone + m.remove(again); } }\nprint(gone);" % d,
+           [str(sum(i for i in range(d) if i % 2 == 0))])
+    sp.m = {k: v for k, v in sp.m.items() if v % 2 == 1}
+    sp.length()
+    sp.has("path", nest(d, None))
+    return sp
+
+
+def tup_src(parts):
+    return "(%s,)" % parts[0] if len(parts) == 1 else "(%s)" % ", ".join(parts)
+
+
+def scale_width(w):
+    """a flat tuple of w elements (255 is the compiler's limit for a tuple literal)"""
+    sp = ScaleProg("width%d" % w, "width", w)
+    el = list(range(w))
+    sp.raw("var p = %s;" % tup_src([str(i) for i in el]))
+    sp.raw("var q = %s;" % tup_src(["(%d + 1)" % (i - 1) if i % 2 else "%d.0" % i for i in el]))
+    others = []
+    sp.raw("var o1 = %s;" % tup_src([str(i) for i in el[:-1] + [w + 7]]))           # last element differs
+    others.append(("o1", tuple(el[:-1] + [w + 7])))
+    if w < 255:
+        sp.raw("var o3 = %s;" % tup_src([str(i) for i in el + [w]]))                # one element more
+        others.append(("o3", tuple(el + [w])))
+    if w >= 2:
+        sp.raw("var o2 = %s;" % tup_src([str(i) for i in el[:-1]]))                 # one element fewer
+        others.append(("o2", tuple(el[:-1])))
+        sw = [el[1], el[0]] + el[2:]                                                    # a permutation: the SAME hash (xor fold), not ==
+        sp.raw("var o4 = %s;" % tup_src([str(i) for i in sw]))
+        others.append(("o4", tuple(sw)))
+    sp.raw("var u = %s;" % tup_src([str(i) for i in el[:-1]] + ["[1]"]))
+    key_session(sp, ("p", tuple(el)), ("q", tuple(el)), others, ("u", tuple(el[:-1] + [VecKey("[1]")])))
+    return sp
+
+
+def scale_tree(d):
+    """p = (p, p) d times: a key of 2^d leaves that shares all of its structure"""
+    sp = ScaleProg("tree%d" % d, "tree", d)
+
+    def tree(leaf):
+        k = (leaf,)
+        for _ in range(d):
+            k = (k, k)
+        return k
+    sp.raw("var p = (1,); for i in 0..%d { p = (p, p); }" % d)
+    sp.raw("var q = (1.0,); for i in 0..%d { q = (q, q); }" % d)
+    sp.raw("var o1 = (2,); for i in 0..%d { o1 = (o1, o1); }" % d)      # same hash as p (xor of equal halves), not ==
+    sp.raw("var u = ([1],); for i in 0..%d { u = (u, u); }" % d)
+    sp.insert("p", "P", "1", 1)
+    sp.has("q", "P")
+    sp.get("q", "P")
+    sp.has("o1", "O")
+    sp.insert("o1", "O", "2", 2)
+    sp.length()
+    sp.insert("q", "P", "3", 3)
+    sp.get("p", "P")
+    sp.obs('try { print(m.insert(u, 1)); } catch e { print("E"); print(e.context.len()); }',
+           ["E", str(len(ERR_PREFIX + ERR_SUFFIX) + len(py_disp(tree(VecKey("[1]")))))])
+    sp.length()
+    sp.remove("q", "P")
+    sp.has("p", "P")
+    sp.get("o1", "O")
+    sp.length()
+    return sp
+
+
+ENTRY_KINDS = {
+    # name: (yarel key of i, the same key built another way, python key)
+    "num": ("i", "(i + 1 - 1.0)", lambda i: i),
+    "neg": ("(0 - i)", "(-i)", lambda i: -i),                               # i = 0: 0 and -0
+    "frac": ("(i / 4)", "(i * 0.25)", lambda i: i / 4.0),
+    "str": ('"k${i}"', '("k" + "${i}")', lambda i: "k%d" % i),
+    "tup": ('(i, "s")', '(i * 1, "" + "s")', lambda i: (i, "s")),
+    "nested": ("((i,), i % 3)", "((i + 0,), i % 3 + 0)", lambda i: ((i,), i % 3)),
+    "collide": ("(i, i)", "(i + 0, i * 1)", lambda i: (i, i)),              # every key has the SAME hash (seed ^ h ^ h)
+    "swap": ("(i, i + 1)", "(i + 0, 1 + i)", lambda i: (i, i + 1)),         # (i, i+1) and (i+1, i) collide pairwise
+}
+
+
+def scale_entries(kind, n):
+    """n entries: insert all, find all through separately built keys, miss the neighbours, enumerate once each,
+    overwrite all, remove every third, find the rest, clear, fill again"""
+    ka, kb, pk = ENTRY_KINDS[kind]
+    sp = ScaleProg("entries-%s%d" % (kind, n), "entries", n)
+    sp.obs("var olds = 0; for i in 0..%d { if m.insert(%s, i) != nil { olds = olds + 1; } }\nprint(olds); print(m.len());" % (n, ka), ["0", str(n)])
+    if kind == "swap":
+        sp.obs("for i in 0..%d { if m.insert((i + 1, i), 0 - i) != nil { olds = olds + 1; } }\nprint(olds); print(m.len());" % n, ["0", str(2 * n)])
+    sp.obs("var hits = 0; var sum = 0; for i in 0..%d { if m.has_key(%s) { hits = hits + 1; sum = sum + m.get(%s); } }\nprint(hits); print(sum);" % (n, kb, kb),
+           [str(n), str(n * (n - 1) // 2)])
+    sp.obs("var miss = 0; for i in %d..%d { if !m.has_key(%s) && m.get(%s) == nil { miss = miss + 1; } }\nprint(miss);" % (n, 2 * n + 3, ka, kb), [str(n + 3)])
+    total = 2 * n if kind == "swap" else n
+    sp.obs("var cnt = 0; var vs = 0; for it in m.items() { if m.get(it[0]) == it[1] { cnt = cnt + 1; } vs = vs + it[1]; }\nprint(cnt); print(vs);",
+           [str(total), str(0 if kind == "swap" else n * (n - 1) // 2)])
+    sp.obs("cnt = 0; for k in m.keys() { if m.has_key(k) { cnt = cnt + 1; } } for v in m.values() { cnt = cnt + 1; }\nprint(cnt);", [str(2 * total)])
+    sp.obs("sum = 0; for i in 0..%d { sum = sum + m.insert(%s, i + 1000); }\nprint(sum); print(m.len());" % (n, kb), [str(n * (n - 1) // 2), str(total)])
+    sp.obs("sum = 0; for i in 0..%d { if i %% 3 == 0 { sum = sum + m.remove(%s); } }\nprint(sum); print(m.len());" % (n, ka),
+           [str(sum(i + 1000 for i in range(n) if i % 3 == 0)), str(total - len(range(0, n, 3)))])
+    sp.obs("hits = 0; sum = 0; for i in 0..%d { if m.has_key(%s) { hits = hits + 1; sum = sum + m.get(%s); } if m.remove(%s) != nil && i %% 3 == 0 { hits = hits + 100000; } }\n"
+           "print(hits); print(sum);" % (n, ka, kb, "(\"absent\", i)"), [str(n - len(range(0, n, 3))), str(sum(i + 1000 for i in range(n) if i % 3))])
+    sp.obs("for i in 0..%d { if i %% 3 == 0 { m.insert(%s, i); } }\nprint(m.len());" % (n, kb), [str(total)])
+    sp.obs("print(m.clear()); print(m.len());", ["nil", "0"])
+    sp.obs("for i in 0..%d { m.insert(%s, i); m.insert(%s, i + 1); }\nprint(m.len());" % (n, ka, kb), [str(n)])
+    small = min(n, 5)
+    sp.obs("for i in 0..%d { print(m.get(%s)); }" % (small, ka), [str(i + 1) for i in range(small)])
+    if n <= 40:
+        sp.obs("for it in m.items() { print(it); }", [py_disp((pk(i), i + 1)) for i in range(n)])
+    return sp
+
+
+def scale_history(N):
+    """N operations over 7 keys: insert / remove / clear interleaved; the running sum of everything the natives handed back"""
+    sp = ScaleProg("history%d" % N, "history", N)
+    clear_at = 1009
+    sp.obs("var acc = 0; var r = nil;\nfor i in 0..%d {\n  r = m.insert((i %% 7, \"x\"), i); if r != nil { acc = acc + r; }\n"
+           "  if i %% 3 == 0 { r = m.remove(((i + 1) %% 7 + 0, \"\" + \"x\")); if r != nil { acc = acc + r; } }\n"
+           "  if m.has_key(((i + 2) %% 7, \"x\")) { acc = acc + 1; }\n"
+           "  if i %% %d == %d { m.clear(); }\n}\nprint(acc);" % (N, clear_at, clear_at - 1), [])
+    acc = 0
+    m = {}
+    for i in range(N):
+        k = (i % 7, "x")
+        if k in m:
+            acc += m[k]
+        m[k] = i
+        if i % 3 == 0:
+            r = m.pop(((i + 1) % 7, "x"), None)
+            if r is not None:
+                acc += r
+        if ((i + 2) % 7, "x") in m:
+            acc += 1
+        if i % clear_at == clear_at - 1:
+            m = {}
+    sp.exp[str(sp.n)] = [str(acc)]
+    sp.m = m
+    sp.length()
+    sp.contents()
+    return sp
+
+
+def scale_literals(N):
+    """the N-th evaluation of a map literal (with a duplicate key) and of a rejected literal / rejected insert"""
+    sp = ScaleProg("literals%d" % N, "literals", N)
+    rej = len(range(0, N, 7))
+    sp.obs("var acc = 0; var rej = 0;\nfor i in 0..%d {\n  var t = {i: 1, (i, \"a\"): 2, (i + 0): 3};\n  acc = acc + t.len() + t.get(i * 1);\n"
+           "  if i %% 7 == 0 {\n    try { t = {i: 1, [i]: 2}; } catch e { rej = rej + 1; }\n    try { t.insert((i, [t]), 1); } catch e { rej = rej + 1; }\n"
+           "    acc = acc + t.len();\n  }\n}\nprint(acc); print(rej);" % N, [str(5 * N + 2 * rej), str(2 * rej)])
+    return sp
+
+
+def scale_strlen(L):
+    """string keys of length L built three ways"""
+    sp = ScaleProg("strlen%d" % L, "strlen", L)
+    s = "a" * L
+    sp.raw('var p = ""; for i in 0..%d { p = p + "a"; }' % L)
+    sp.raw('var q = "%s";' % s)
+    sp.raw('var h = ""; for i in 0..%d { h = h + "a"; } var q2 = "${h}%s";' % (L // 2, "a" * (L - L // 2)))
+    sp.raw('var o1 = "%sb";' % s[:-1])
+    sp.raw('var o2 = "%s";' % s[:-1])
+    sp.raw('var o3 = "%sa";' % s)
+    sp.raw('var u = [p];')
+    sp.obs("print(p.len()); print(p == q2);", [str(L), "true"])
+    key_session(sp, ("p", s), ("q", s), [("o1", s[:-1] + "b"), ("o2", s[:-1]), ("o3", s + "a")], ("u", VecKey("[%s]" % s)))
+    sp.get("q2", s)
+    sp.insert("q2", s, "8", 8)
+    sp.length()
+    return sp
+
+
+def scale_cases(ctx, big):
+    """(case list) the ladders; `big` = every rung (thorough / search), else every rung too but fewer entry kinds at the top"""
+    rng = ctx.rng
+    sps = [scale_depth(d) for d in DEPTHS] + [scale_fat(d) for d in DEPTHS] + [scale_prefix(d) for d in DEPTHS if d > 1] + [scale_width(w) for w in WIDTHS]
+    sps += [scale_tree(d) for d in TREE_DEPTHS] + [scale_history(n) for n in HISTORY_SIZES] + [scale_literals(n) for n in HISTORY_SIZES] + [scale_strlen(n) for n in STRLENS]
+    kinds = sorted(ENTRY_KINDS)
+    for n in ENTRY_SIZES:
+        for kind in (kinds if big else rng.sample(kinds, 3)):
+            if kind == "collide" and n > 1100:
+                continue          # one bucket: quadratic
+            sps.append(scale_entries(kind, n))
+    if big:
+        sps += [scale_depth(rng.randint(35, 300)) for _ in range(6)] + [scale_width(rng.randint(4, 255)) for _ in range(6)]
+        sps += [scale_entries(rng.choice(kinds[1:]), rng.randint(100, 5000)) for _ in range(10)]
+        sps += [scale_history(rng.randint(1000, 30000)) for _ in range(4)] + [scale_strlen(rng.randint(100, 5000)) for _ in range(4)]
+    cases = []
+    for sp in sps:
+        cases.append(sp.case("release"))
+        if sp.size <= DEBUG_MAX[sp.family] and not (sp.family == "entries" and "collide" in sp.name and sp.size > 29):
+            cases.append(sp.case("debug"))
+    return cases
+
+
+def judge_scale(rec, case):
+    """None when the output is the expected one, else (marker, expected, got)"""
+    out = {}
+    cur = None
+    for l in rec.output:
+        if l.startswith("#"):
+            cur = l[1:]
+            out[cur] = []
+        elif cur is not None:
+            out[cur].append(l)
+    for mk in sorted(case["expected"], key=int):
+        got = out.get(mk)
+        if got is None:
+            return (mk, case["expected"][mk], "no output for this observation; run ended with %s %s" % (str(rec.result), " | ".join(rec.messages)[:300]))
+        if sorted(got) != case["expected"][mk]:
+            return (mk, case["expected"][mk], got)
+    if rec.result[0] != "ok" or rec.crashed or "end" not in out:
+        return ("end", "program runs to completion", "%s %s" % (str(rec.result), " | ".join(rec.messages)[:300]))
+    return None
+
+
+def clip(x, n=600):
+    if isinstance(x, list):
+        return [clip(e, n) for e in x[:12]]
+    x = str(x)
+    return x if len(x) <= n else x[:n // 2] + " ...[%d chars]... " % (len(x) - n) + x[-n // 2:]
+
+
+def check_scale(ctx, cases, tag="scale"):
+    """runs the cases; a timed-out / crashed case is re-run alone before it counts; reports the SMALLEST failing rung of
+    each family first"""
+    bad = []
+    for profile in ("debug", "release"):
+        sel = [c for c in cases if c["profile"] == profile]
+        if not sel:
+            continue
+        binary = ctx.harness(profile)
+        recs = yvlib.run_harness(binary, ["run - " + hx(c["src"]) for c in sel], case_timeout_ms=60000)
+        for c, rec in zip(sel, recs):
+            j = judge_scale(rec, c)
+            if j is not None and (rec.crashed or rec.result[0] == "crash"):
+                rec = yvlib.run_harness(binary, ["run - " + hx(c["src"])], shards=1, case_timeout_ms=120000)[0]
+                j = judge_scale(rec, c)
+            if j is not None:
+                bad.append((c, j))
+    bad.sort(key=lambda cj: (cj[0]["size"], cj[0]["profile"]))
+    seen = {}
+    for c, (mk, exp, got) in bad:
+        seen.setdefault(c["family"], []).append((c, mk, exp, got))
+    nviol = 0
+    for fam in sorted(seen):
+        c, mk, exp, got = seen[fam][0]
+        if nviol >= 5:
+            break
+        nviol += 1
+        stmt = c["src"].split('print("#%s");\n' % mk)[1].split('\nprint("#')[0] if mk != "end" else "(whole program)"
+        ctx.violation("HashMap at scale differs from the abstract map (smallest failing rung of family `%s`; %d rung(s) of the family fail: %s)" % (
+            fam, len(seen[fam]), ", ".join("%s/%s" % (x[0]["name"], x[0]["profile"]) for x in seen[fam][:12])),
+            input=c["src"] if len(c["src"]) < 20000 else clip(c["src"], 20000), expected={"observation": mk, "stmt": clip(stmt, 1500), "lines": clip(exp)},
+            actual=clip(got), case=c, style="scale:" + fam)
+    return len(cases), len(bad)
+
+
+# ------------------------------------------------------------------------------------------------------------
 # value level
 #   value AST: ["z"] ["f"] ["t"] ["n", bits] ["s", hex] ["c", global, class name] ["r", b, e] ["T", [..]] ["v"] ["m"] ["@", i]
 
@@ -1106,7 +1564,12 @@ def run(ctx):
             check_programs(ctx, [case["prog"]], "replay")
         elif case.get("kind") == "vals":
             check_vals(ctx, [case["items"]], "replay")
+        elif case.get("kind") == "scale":
+            check_scale(ctx, [case], "replay")
         return
+    # scale families first (cheap: no model evaluation; Python abstract map / closed forms)
+    ns, nsbad = check_scale(ctx, scale_cases(ctx, not quick))
+    scale_viol = list(ctx.violations)
     # corpus
     corpus = []
     cdir = os.path.join(yvlib.VERIF, "corpus", "C12")
@@ -1134,12 +1597,16 @@ def run(ctx):
     shrink_first_violation(ctx)
     pv = [v for v in ctx.violations if v.get("case", {}).get("kind") == "prog"]
     ov = [v for v in ctx.violations if v.get("case", {}).get("kind") != "prog"]
-    ctx.violations[:] = pv[:5] + ov[:5]
+    ov = [v for v in ov if v not in scale_viol]
+    ctx.violations[:] = scale_viol[:5] + pv[:5] + ov[:5]
     styles = {}
     for p in progs:
         styles[p.get("style")] = styles.get(p.get("style"), 0) + 1
     ctx.cov.update({
-        "evaluations": nv + np_,
+        "evaluations": nv + np_ + ns,
+        "scale_cases": ns, "scale_cases_failing": nsbad,
+        "scale_ladders": {"key nesting depth (2-element links, 5-element links, all prefixes in one map)": list(DEPTHS), "key width": list(WIDTHS), "entries": list(ENTRY_SIZES), "history length": list(HISTORY_SIZES),
+                          "string key length": list(STRLENS), "shared-structure tree depth (2^d leaves)": list(TREE_DEPTHS), "entry key kinds": sorted(ENTRY_KINDS)},
         "distinct_nontrivial": len(nontriv),
         "rule": "yarel programs = operation sequences (literal, insert, remove, get, has_key, clear, len, keys/values/items) over key pools of "
                 "equal-but-differently-built keys (0/-0/0*-1, 1/1.0/2-1, 2^53/2^53+1, \"ab\"/\"a\"+\"b\"/interpolation, tuples and nested tuples built "
@@ -1162,6 +1629,7 @@ def search(ctx):
     ctx.tier = "thorough"
     keep_b, keep_c = list(ctx.broken), list(ctx.corr_broken)
     try:
+        # run() starts with the scale families on every rung (directed, seconds) and goes on with the thorough generators
         run(ctx)
     finally:
         ctx.tier = old
